@@ -80,7 +80,11 @@ func vh_hash_nilmsg(fn, d int) {
 // mode 0: fresh buffers for the second call; mode 1: the first call's DST buffer is overwritten in place and reused
 func vh_hash_twice(fn, m, d, mode int) {
 	msg1 := vNondetBytes("msg1", m)
-	dst1 := vNondetBytes("dst1", d)
+	d1 := d
+	if mode == 2 { // the very first call of the process uses an oversize DST
+		d1 = 300
+	}
+	dst1 := vNondetBytes("dst1", d1)
 	var msg, dst []byte
 	run := func(a, b []byte) {
 		switch fn {
